@@ -105,6 +105,10 @@ func (x *Exec) doCallVals(st *State, fr *Frame, cc *ssa.CallCommon, fnv Val, arg
 	if callee.Origin() != nil {
 		name = callee.Origin().String()
 	}
+	if h, ok := cpsExterns[name]; ok {
+		h(x, st, fr, cc, args, instr, k)
+		return
+	}
 	if h, ok := externs[name]; ok {
 		x.extUsed[name] = true
 		outs := h(x, st, fr, cc, args, instr)
@@ -142,7 +146,7 @@ func (x *Exec) doCallVals(st *State, fr *Frame, cc *ssa.CallCommon, fnv Val, arg
 		x.havocForUnknown(st, args)
 		st.advanceTop()
 		for h := range st.heaps {
-			delete(st.heaps, h)
+			st.havocHeap(strings.TrimPrefix(h, "H_"))
 		}
 		k(st, fr, x.symResult(st, cc))
 		return
@@ -192,13 +196,17 @@ func (x *Exec) havocReachable(st *State, a Val) {
 	switch p := a.(type) {
 	case PtrV:
 		if p.Cell != nil && !st.frozen[p.Cell] {
+			_, x.keepLen = st.ghost[fmt.Sprintf("len:%d", p.Cell.id)]
 			st.cells[p.Cell] = x.havocLike(st, p.Cell.name, p.Cell.typ, st.cells[p.Cell])
+			x.keepLen = false
 		} else if p.Ref != "" {
-			delete(st.heaps, x.w.Heap(p.RootSort))
+			st.havocHeap(p.RootSort)
 		}
 	case SliceV:
 		if !st.frozen[p.Cell] {
+			_, x.keepLen = st.ghost[fmt.Sprintf("len:%d", p.Cell.id)]
 			st.cells[p.Cell] = x.havocLike(st, p.Cell.name, p.Cell.typ, st.cells[p.Cell])
+			x.keepLen = false
 		}
 	case IfaceV:
 		if p.Payload != nil {
@@ -447,6 +455,13 @@ func (x *Exec) globalInitVal(st *State, g *ssa.Global) Val {
 	if _, ok := t.Underlying().(*types.Map); ok {
 		return MapV{Global: g}
 	}
+	if key == "io.Discard" {
+		id := st.fresh("discard", SInt)
+		st.assume(tCmp("<", "0", id))
+		st.ghost["out:"+id] = TV{SSeqI, sEmpty(SSeqI)}
+		st.ghost["memwriter:"+id] = TV{SBool, "true"}
+		return IfaceV{Sym: id, Static: t}
+	}
 	if key == "encoding/binary.LittleEndian" {
 		return TV{x.w.SortOf(t), x.zeroTerm(t)}
 	}
@@ -500,4 +515,16 @@ func (x *Exec) initIfaceGhost(st *State, iv IfaceV) {
 	}
 }
 
-func (x *Exec) ifaceStored(st *State, iv IfaceV, ref string) {}
+// ifaceStored: when an object of a repository type becomes an interface value
+// its abstract size is the value its Size method returns (the `size` field of
+// readerAtSize and multi).
+func (x *Exec) ifaceStored(st *State, iv IfaceV, p PtrV) {
+	d := x.w.DTByName(p.RootSort)
+	if d == nil {
+		return
+	}
+	if i := d.FieldIndex("size"); i >= 0 && d.Fields[i].Sort == SInt {
+		viewDecl(x)
+		st.assume(tEq(app("g_size", p.Ref), d.Get(i, st.heapSelect(p.RootSort, p.Ref))))
+	}
+}
